@@ -272,8 +272,13 @@ ParseElem(S, ctx, isBlock, ver, depth) ==
     ELSE IF tag = "A2ML"
     THEN LET t == ExpectToken(S, "str") IN
          IF ~t.ok THEN t
-         ELSE LET c == CloseBlock(t.S, tag) IN
-              IF ~c.ok THEN c ELSE Ok(c.S, Node(tag, <<Tok(t.v).v>>, <<>>))
+         ELSE \* the text is handed to the A2ML parser; a text that is no usable definition (attribute a2mlok of the
+              \* token, known to whoever built the document) is a recoverable problem: A2mlError
+              LET bad == "a2mlok" \in DOMAIN Tok(t.v).a /\ ~Tok(t.v).a.a2mlok
+                  l == IF bad THEN Log(t.S, Diag("A2mlError", t.S.last, "")) ELSE Ok(t.S, TRUE)
+              IN IF ~l.ok THEN l
+                 ELSE LET c == CloseBlock(l.S, tag) IN
+                      IF ~c.ok THEN c ELSE Ok(c.S, Node(tag, <<Tok(t.v).v>>, <<>>))
     ELSE LET p == ParseParams(S, el.params, el.kids, ver, <<>>) IN
          IF ~p.ok THEN p
          ELSE LET k == IF el.kids = <<>> THEN Ok(p.S, <<>>) ELSE ParseKids(p.S, ctx, el.form = "block", ver, <<>>) IN
